@@ -6,6 +6,7 @@ mod c05;
 mod disk;
 mod codec;
 mod lru;
+mod fnames;
 mod pick;
 mod score;
 mod seekcheck;
@@ -108,6 +109,7 @@ fn main() {
         }
         "c17" => c17::run(&tier, seed, replay.as_deref(), &drv),
         "lru" => lru::run(&tier, seed, replay.as_deref(), &drv),
+        "fnames" => fnames::run(&tier, seed, replay.as_deref(), &drv),
         "codec" => codec::run(&tier, seed, replay.as_deref(), &drv),
         "pick" => pick::run(&tier, seed, replay.as_deref(), &drv),
         "score" => score::run(&tier, seed, replay.as_deref(), &drv),
